@@ -1,8 +1,12 @@
 #!/usr/bin/env python3
 """Collect confirmed seeded changes into /verif/seeded/<id>/ (patch.diff, demo files, meta.json)."""
 import json, os, shutil, glob, sys
+# usage: collect_seeds.py [prefix suffix detect-log...]   (defaults: wave 1)
+PREFIX = sys.argv[1] if len(sys.argv) > 1 else "seed"
+SUFFIX = sys.argv[2] if len(sys.argv) > 2 else ""
+LOGS = sys.argv[3:] if len(sys.argv) > 3 else ["/tmp/seed_detect.log", "/tmp/seed_detect2.log", "/tmp/seed_detect3.log"]
 det = {}
-for f in ["/tmp/seed_detect.log", "/tmp/seed_detect2.log", "/tmp/seed_detect3.log"]:
+for f in LOGS:
     if os.path.exists(f):
         for l in open(f):
             l = l.strip()
@@ -10,9 +14,14 @@ for f in ["/tmp/seed_detect.log", "/tmp/seed_detect2.log", "/tmp/seed_detect3.lo
                 try:
                     r = json.loads(l); det.setdefault(r["seed"], []).append(r)
                 except Exception:
-                    pass
+                    # signature field with unescaped text of a KNOWN-FINDING line: recover the essentials
+                    import re
+                    m = re.match(r'\{"seed":"(C\d+)","check":"(C\d+)","exit":(\d+),"signatures":"(.*)","secs":(\d+)\}$', l)
+                    if m:
+                        sigs = sorted(set(re.findall(r'(C\d\d:[A-Za-z0-9_<>:.+#`()\[\]-]+)', m.group(4))))
+                        det.setdefault(m.group(1), []).append({"seed": m.group(1), "check": m.group(2), "exit": int(m.group(3)), "signatures": "|".join(sigs), "secs": int(m.group(5))})
 rows = []
-for d in sorted(glob.glob("/tmp/seed_C??")):
+for d in sorted(glob.glob(f"/tmp/{PREFIX}_C??")):
     sid = os.path.basename(d).split("_")[1]
     cf = f"{d}/confirm.json"
     if not os.path.exists(cf) or not os.path.exists(f"{d}/out/patch.diff"):
@@ -21,11 +30,13 @@ for d in sorted(glob.glob("/tmp/seed_C??")):
     ok = c.get("demo_clean_rc") == 0 and c.get("suite_311_passed") == 1 and c.get("demo_patched_rc") not in (0, None)
     if not ok:
         print(sid, "NOT CONFIRMED", c); continue
-    out = f"/verif/seeded/{sid}"
+    out = f"/verif/seeded/{sid}{SUFFIX}"
     os.makedirs(out, exist_ok=True)
     for f in glob.glob(f"{d}/out/*"):
         if os.path.isfile(f):
             shutil.copy(f, out)
+        elif os.path.isdir(f):
+            shutil.copytree(f, os.path.join(out, os.path.basename(f)), dirs_exist_ok=True)
     try:
         agent_meta = json.load(open(f"{d}/out/meta.json"))
     except Exception:
@@ -42,13 +53,13 @@ for d in sorted(glob.glob("/tmp/seed_C??")):
         "demo": agent_meta.get("demo"),
         "origin": "independent sub-agent given only the property record and a private worktree of /repo",
         "confirmed_by_me": {
-            "how": "tools/seed_confirm.sh in a scratch worktree: demo on the clean tree, patch applied, full repository test suite, demo again",
+            "how": "tools/seed_confirm.sh / seed_confirm2.sh in a scratch worktree: demo on the clean tree, patch applied, full repository test suite, demo again",
             "demo_passes_on_clean_tree": c["demo_clean_rc"] == 0,
             "repository_suite_311_pass_with_change": c["suite_311_passed"] == 1,
             "demo_fails_with_change": c["demo_patched_rc"] != 0,
         },
         "detection": [{"check": r["check"], "tier": "quick", "exit": r["exit"], "signatures": [s for s in r["signatures"].split("|") if s], "wall_s_incl_rebuild": r["secs"],
-                       "how": "git -C /repo apply seeded/%s/patch.diff; bin/check %s quick; git -C /repo checkout -- ." % (sid, r["check"])} for r in last.values()],
+                       "how": "git -C /repo apply seeded/%s%s/patch.diff; bin/check %s quick; git -C /repo checkout -- ." % (sid, SUFFIX, r["check"])} for r in last.values()],
     }
     if len(runs) > len(last):
         meta["detection_history"] = [{"check": r["check"], "exit": r["exit"], "signatures": [s for s in r["signatures"].split("|") if s][:4]} for r in runs]
